@@ -1801,6 +1801,7 @@ func ruleC06Version(c *Checker, R string) {
 			case l.Kind == "field" && l.Field == vv:
 			case l.Kind == "call" && l.Callee != nil && isFunc(l.Callee, "github.com/apparentlymart/go-versions/versions", "ParseVersion"):
 			case l.Kind == "call" && l.Callee != nil && p.wrapsParseVersion(l.Callee):
+			case l.Kind == "call" && l.Callee == nil && p.literalWrapsParseVersion(l.V):
 			case l.Kind == "zero":
 			default:
 				return false, leafDesc(p, l)
@@ -1831,12 +1832,37 @@ func ruleC06Version(c *Checker, R string) {
 // wrapsParseVersion: a module function (string) (Version, error) every
 // non-error result of which is the result of versions.ParseVersion on its
 // parameter (a guard around the library call, e.g. one that recovers).
+// literalWrapsParseVersion: v is the result of a function literal called on the spot whose results are those of
+// versions.ParseVersion (the recover-wrapper written out where it is used).
+func (p *Prog) literalWrapsParseVersion(v ssa.Value) bool {
+	if ex, ok := v.(*ssa.Extract); ok {
+		v = ex.Tuple
+	}
+	cl, ok := v.(*ssa.Call)
+	if !ok {
+		return false
+	}
+	mc, ok := cl.Call.Value.(*ssa.MakeClosure)
+	if !ok {
+		return false
+	}
+	fn, ok := mc.Fn.(*ssa.Function)
+	return ok && p.fnWrapsParseVersion(fn)
+}
+
 func (p *Prog) wrapsParseVersion(o *types.Func) bool {
 	for _, fn := range p.Funcs {
 		if fn.Object() != o || !p.InModule(fn) || len(fn.Params) != 1 {
 			continue
 		}
-		n := 0
+		return p.fnWrapsParseVersion(fn)
+	}
+	return false
+}
+
+func (p *Prog) fnWrapsParseVersion(fn *ssa.Function) bool {
+	n := 0
+	{
 		for _, r := range returnsOf(fn) {
 			for _, v := range returnValues(r, 0) {
 				if v == nil {
@@ -1853,9 +1879,8 @@ func (p *Prog) wrapsParseVersion(o *types.Func) bool {
 				}
 			}
 		}
-		return n > 0
 	}
-	return false
+	return n > 0
 }
 
 // C07.urlfields — each syntactic check of a URL looks at the part it is about.
